@@ -268,7 +268,7 @@ func (p Parameters) ParametersLiteral() ParametersLiteral {
 		Xe:           p.xe.DistributionParameters,
 		Xs:           p.xs.DistributionParameters,
 		RingType:     p.ringType,
-		DefaultScale: p.defaultScale,
+		DefaultScale: p.DefaultScale(),
 		NTTFlag:      p.nttFlag,
 	}
 }
@@ -281,7 +281,7 @@ func (p Parameters) GetRLWEParameters() *Parameters {
 // NewScale creates a new scale using the stored default scale as template.
 func (p Parameters) NewScale(scale interface{}) Scale {
 	newScale := NewScale(scale)
-	newScale.Mod = p.defaultScale.Mod
+	newScale.Mod = p.DefaultScale().Mod
 	return newScale
 }
 
@@ -313,7 +313,12 @@ func (p Parameters) LogNthRoot() int {
 
 // DefaultScale returns the default scaling factor of the plaintext, if any.
 func (p Parameters) DefaultScale() Scale {
-	return p.defaultScale
+	// a deep copy: a struct copy would share the mantissa of Value and the *big.Int Mod with the parameters
+	s := Scale{Value: *new(big.Float).Copy(&p.defaultScale.Value)}
+	if p.defaultScale.Mod != nil {
+		s.Mod = new(big.Int).Set(p.defaultScale.Mod)
+	}
+	return s
 }
 
 // RingQ returns a pointer to ringQ
